@@ -215,8 +215,6 @@ func ApplyRef(state finaliser, env BlockEnv, msg *Msg, tracer ethvm.Tracer) (*Re
 // ApplyAdapter runs the message through the real EVMTransaction.Apply the way
 // action/olvm.runOLVM builds it.
 func ApplyAdapter(w *AdapterWorld, env BlockEnv, msg *Msg) (*Result, error) {
-	var to *[]byte
-	_ = to
 	gp := new(ethcore.GasPool).AddGas(env.GasPool)
 	var toKey *olKeysAddress
 	if msg.To != nil {
